@@ -193,8 +193,8 @@ pub struct LaneCtx {
     pub result: LaneResult,
     pub strict: bool,
     pub only_sub: Option<String>,
-    /// E4 generic mode: generate ONE case of sub-check `only_sub` from the given byte
-    /// string (proptest's pass-through RNG) and judge it; the result is left in `fuzz_out`.
+    /// E4 generic mode: decode ONE case of sub-check `only_sub` from the given byte string
+    /// (vcore::bytede) and judge it; the result is left in `fuzz_out`.
     pub fuzz_bytes: Option<Vec<u8>>,
     pub fuzz_out: Option<(Value, Verdict)>,
 }
@@ -461,13 +461,8 @@ impl LaneCtx {
             .rule
             .insert(spec.name.to_string(), spec.rule.to_string());
         if let Some(bytes) = self.fuzz_bytes.clone() {
-            use proptest::strategy::ValueTree;
-            let mut runner = TestRunner::new_with_rng(
-                Config { failure_persistence: None, max_local_rejects: 64, max_global_rejects: 64, ..Config::default() },
-                TestRng::from_seed(RngAlgorithm::PassThrough, &bytes),
-            );
-            if let Ok(tree) = spec.strategy.new_tree(&mut runner) {
-                let case = tree.current();
+            // E4 generic mode: the case is decoded structure-aware from the fuzz bytes (vcore::bytede)
+            if let Ok(case) = crate::vcore::bytede::from_bytes::<C>(&bytes) {
                 let verdict = match catch(|| f(&case)) {
                     Ok(v) => v,
                     Err((loc, msg)) => panic_verdict(&loc, &msg),
